@@ -15,11 +15,14 @@ from .values import *
 
 
 class SpecEnv:
-    def __init__(self, st: State, names: dict, old_st: State = None, old_names: dict = None):
+    def __init__(self, st: State, names: dict, old_st: State = None, old_names: dict = None,
+                 prev_st: State = None, prev_names: dict = None):
         self.st = st
         self.names = names
         self.old_st = old_st
         self.old_names = old_names if old_names is not None else names
+        self.prev_st = prev_st
+        self.prev_names = prev_names
 
 
 class SpecEvalMixin:
@@ -426,6 +429,10 @@ class SpecEvalMixin:
                     raise RuntimeError("old() outside a postcondition")
                 oenv = SpecEnv(env.old_st, env.old_names, None, None)
                 return self._sp(oenv, n.args[0])
+            if name == "prev":
+                if env.prev_st is None:
+                    raise RuntimeError("prev() outside a loop step clause")
+                return self._sp(SpecEnv(env.prev_st, env.prev_names, env.old_st, env.old_names), n.args[0])
             if name == "implies":
                 a = self.truthy(st, self._sp(env, n.args[0]))
                 b = self.truthy(st, self._sp(env, n.args[1]))
@@ -451,6 +458,8 @@ class SpecEvalMixin:
                 v = self.unwrap(self._sp(env, n.args[0]))
                 attr = n.args[1].value
                 return VBool(self.hasattr_term(st, v, attr))
+            if name == "clock":      # the virtual clock (lower bound of the next time.time() reading)
+                return VFloat(st.clock)
             if name == "has":        # raw presence flag of a dynamic attribute (without __getattr__)
                 v = self.unwrap(self._sp(env, n.args[0]))
                 return VBool(self.has_dyn(st, v, n.args[1].value))
